@@ -278,6 +278,17 @@ Qed.
 Example C13_nonvacuous_units_witness : (1.55e-6 : R) <> 0 /\ (1.2153e15 : R) <> 0.
 Proof. split; Lra.lra. Qed.
 
+(* SignalConfig / IdlerConfig::try_as_beam, translated as compositions of the generated constructor and setters (Gen/C13Callers.v): with
+   theta_external_deg Snell's law is solved on a beam that already has the requested azimuth and polarization — so every
+   round-trip theorem above applies to beams that come from the flat configuration — and with theta_deg both angles are as requested *)
+Theorem C13_config_external_order :
+  external_order_ok signal_config_external_gen /\ external_order_ok idler_config_external_gen.
+Proof. exact (conj signal_config_external_order idler_config_external_order). Qed.
+
+Theorem C13_config_internal_angles :
+  internal_ok signal_config_internal_gen /\ internal_ok idler_config_internal_gen.
+Proof. exact (conj signal_config_internal idler_config_internal). Qed.
+
 Example C13_builtin_nonvacuous : in_window KTP 1.55 /\ temp_ok 20 /\ Rabs (sin 0) <= / 4.
 Proof. rewrite sin_0, Rabs_R0. unfold in_window, temp_ok; cbn. repeat split; Lra.lra. Qed.
 
@@ -308,3 +319,5 @@ Print Assumptions C13_waist_position_callers.
 Print Assumptions C13_snell_forward_after_set_partial.
 Print Assumptions C13_internal_angle_not_larger_partial.
 Print Assumptions C13_internal_angle_not_larger_builtin.
+Print Assumptions C13_config_external_order.
+Print Assumptions C13_config_internal_angles.
